@@ -4,6 +4,15 @@
 
 package planner
 
+import (
+	"time"
+
+	"github.com/vektah/gqlparser/v2/ast"
+)
+
+var _ time.Time
+var _ ast.Field
+
 //@ nonnil-elems *QueryPlanStep
 
 // C14 (a): the cache key must cover everything planning reads from the context
@@ -23,7 +32,7 @@ package planner
 //@ returns plan, err
 //@ requires ctx != nil && ctx.Operation != nil && ctx.Schema != nil
 //@ ensures[plan] err == nil ==> plan != nil
-//@ modifies fresh, entries(map[hashKey]*QueryPlan), entries(map[hashKey]time.Time)
+//@ modifies fresh, entries(map[hashKey]*QueryPlan), entries(map[hashKey]time.Time), all(ast.Field.SelectionSet), all(ast.InlineFragment.SelectionSet)
 //@ end
 
 //@ func (*CachedPlanner).Plan
@@ -32,6 +41,9 @@ package planner
 //@ requires cp != nil && cp.cache != nil && cp.cacheTimers != nil && cp.executor != nil
 //@ requires forallT(k, hashKey, has(cp.cache, k) ==> cp.cache[k] != nil)
 //@ requires ctx != nil && ctx.Operation != nil && ctx.Schema != nil
+// planning rewrites the selection sets of the client's AST in place (sanitizeSelectionSet), so
+// the cache key has to be computed from the operation as it was received
+//@ callsite hash requires[key-of-received-operation] forallT(p, *ast.Field, p.SelectionSet == old(p.SelectionSet)) && forallT(p, *ast.InlineFragment, p.SelectionSet == old(p.SelectionSet)) @props C14
 //@ end
 
 //@ func (*CachedPlanner).hash
@@ -51,7 +63,7 @@ package planner
 //@ func (SequentialPlanner).Plan
 //@ props C07
 //@ requires ctx != nil && ctx.Operation != nil && ctx.Schema != nil
-//@ modifies-assumed fresh
+//@ modifies-assumed fresh, all(ast.Field.SelectionSet), all(ast.InlineFragment.SelectionSet)
 //@ end
 
 //@ func (*QueryPlan).SetComputedValues
